@@ -120,20 +120,35 @@ func C08(c *core.Ctx) {
 			cc, ok := core.IsCall(in, core.CalleeID{Pkg: "fw/table", Name: "UpdateExpirationTimer"}, core.CalleeID{Pkg: "fw/table", Name: "SetExpirationTimerToNow"})
 			return ok && entry != nil && core.Same(cc.Args[0], entry)
 		}
+		// from the InsertInterest call every path to a normal exit schedules the entry's
+		// expiry, except the paths through an edge asserting "duplicate" (nothing was
+		// created there); an exit whose test mixes the duplicate outcome with anything
+		// else (e.g. a dead-nonce drop decided after the insertion) is not excused
 		n := 0
-		for _, f := range core.EdgeFacts(pii, dup) {
-			if f.Holds {
-				continue
-			}
+		cutDup, per := core.CutEdgesDeep(pii, pos(dup))
+		for _, ci := range core.FindCallsDeep(pii, core.CalleeID{Pkg: "fw/table", Recv: "PitCsTable", Name: "InsertInterest"}) {
 			n++
-			fr := core.MustFollowDeep(pii, core.Point{Block: f.E.To, Idx: 0}, isSched, nil)
+			restore := core.WithRoot(pii)
+			fr := core.MustFollowCut(ci.Parent(), core.After(ci), func(x ssa.Instruction) bool {
+				if isSched(x) {
+					return true
+				}
+				// a private helper that always schedules
+				if cc, ok := x.(ssa.CallInstruction); ok {
+					if cal := cc.Common().StaticCallee(); cal != nil && cal.Blocks != nil && cal.Pkg == pii.Pkg && cal != pii {
+						return core.MustFollow(cal, core.Point{Block: cal.Blocks[0], Idx: 0}, isSched, nil).OK
+					}
+				}
+				return false
+			}, nil, cutDup)
+			restore()
 			det := ""
 			if !fr.OK {
 				det = fmt.Sprintf("exit at %s reached without scheduling the entry's expiry; path: %s", c.Pos(fr.Exit), p.PathString(fr.Path))
 			}
-			c.Decide(fr.OK, "R8.1", "pit-entry-expiry-scheduled-on-all-exits", p.Pos(pii.Pos()), "every exit after a non-duplicate InsertInterest passes UpdateExpirationTimer/SetExpirationTimerToNow on that entry", "a PIT entry created or refreshed by InsertInterest is never put on the expiry queue on some path (it is never reaped): "+det)
+			c.Decide(fr.OK && per[0] > 0, "R8.1", "pit-entry-expiry-scheduled-on-all-exits", p.Pos(pii.Pos()), "every exit after a non-duplicate InsertInterest passes UpdateExpirationTimer/SetExpirationTimerToNow on that entry", "a PIT entry created or refreshed by InsertInterest is never put on the expiry queue on some path (it is never reaped): "+det)
 		}
-		c.Floor("R8.1", "non-duplicate edges after InsertInterest", n, 1)
+		c.Floor("R8.1", "InsertInterest calls in the Interest pipeline", n, 1)
 	}
 	for _, nm := range []string{"UpdateExpirationTimer", "SetExpirationTimerToNow"} {
 		if fn := c.Fn("R8.1", "fw/table", "", nm); fn != nil {
